@@ -156,6 +156,18 @@ theorem C20_kmeansInit_congr (s₁ s₂ k₁ k₂ : Nat) (p₁ p₂ : List (Nat 
     (hs : s₁ = s₂) (hk : k₁ = k₂) (hp : p₁ = p₂) : kmeansInit s₁ k₁ p₁ = kmeansInit s₂ k₂ p₂ := by
   subst hs hk hp; rfl
 
+/-- `Layer::init` on the preflop street performs no clustering and draws nothing: with `n = k` points
+the centroids are the points themselves, in order; any other `n` aborts (`assert!(n == k)`) -/
+theorem C20_layerInit_pref (k : Nat) (pts : List (Nat × List Nat)) :
+    layerInit 0 k pts = if pts.length = k then some (List.range k) else none := by
+  simp [layerInit]
+/-- on the learned streets `Layer::init` is the seeded k-means++ choice, a function of (street, k, points) -/
+theorem C20_layerInit_learned (s k : Nat) (pts : List (Nat × List Nat)) (hs : s ≠ 0) :
+    layerInit s k pts = kmeansInit s k pts := by
+  simp [layerInit, hs]
+example : layerInit 0 3 [(1, [1]), (2, [2]), (3, [3])] = some [0, 1, 2] ∧ layerInit 0 2 [(1, [1])] = none := by
+  decide
+
 /-- the widening-multiply step of `gen_range`: for any 64-bit draw `v` the candidate `⌊v·n / 2^64⌋`
     is a valid index below `n` (so whichever draw is accepted, the chance branch index is in range) -/
 theorem genRangeIdx_lt (n zone : Nat) (hn : 0 < n) : ∀ (fuel : Nat) (x : Xo),
